@@ -23,6 +23,7 @@ PROP = {
     "Circuit.copy(deep=True)": "C06", "associate_gates_with_parameters": "C06",
     "_ParametrizedGates built": "C06", "the fSim returned as dagger": "C06",
     "fusing a circuit that already": "C07", "frequencies(registers=True)": "C03",
+    "shallow copies of a circuit": "C07",
     "SymbolicTerm applies": "C15", "StateEvolution takes": "C16", "von_neumann_entropy of a state vector": "C18",
 }
 
